@@ -139,18 +139,24 @@ impl Prop for C16 {
                 return Err(Failure::new("qibla-rotation-vs-oracle", format!("{:?}", o_rot), format!("{:?}", rot)));
             }
         }
+        // printed text agrees with sign and magnitude (no exact format imposed: the first number in the text must be
+        // |degrees| to the printed precision, and the rotation label must match the sign)
         let text = q.to_string();
-        let want_text = format!("{:.1}° {}", got.abs(), if got < 0.0 { "CW" } else { "CCW" });
-        if text != want_text {
-            return Err(Failure::new("qibla-display", want_text, text));
-        }
-        // printed magnitude agrees with the oracle to the printed precision
-        if let Some(num) = text.split('°').next().and_then(|s| s.parse::<f64>().ok()) {
-            if (num - want.abs()).abs() > 0.05 + 1e-6 {
-                return Err(Failure::new("qibla-display-magnitude", format!("{:.1}", want.abs()), text));
+        let numtxt: String = text.chars().skip_while(|ch| !ch.is_ascii_digit()).take_while(|ch| ch.is_ascii_digit() || *ch == '.').collect();
+        match numtxt.parse::<f64>() {
+            Ok(num) => {
+                let decimals = numtxt.split('.').nth(1).map_or(0, |d| d.len()) as i32;
+                let half_unit = 0.5 * 10f64.powi(-decimals);
+                if (num - got.abs()).abs() > half_unit + 1e-9 || (num - want.abs()).abs() > half_unit + 1e-6 {
+                    return Err(Failure::new("qibla-display-magnitude", format!("{} printed to {} decimals", got.abs(), decimals), text));
+                }
             }
-        } else {
-            return Err(Failure::new("qibla-display-format", "'<deg>° CW|CCW'", text));
+            Err(_) => return Err(Failure::new("qibla-display-format", "a text containing the magnitude in degrees", text)),
+        }
+        let says_ccw = text.contains("CCW");
+        let says_cw = text.contains("CW") && !says_ccw;
+        if (got < 0.0 && !says_cw) || (got >= 0.0 && !says_ccw) {
+            return Err(Failure::new("qibla-display-label", format!("label {} for {}", if got < 0.0 { "CW" } else { "CCW" }, got), text));
         }
         st.nontrivial(c);
         let dl = crate::oracle::ephem::norm180(lon - oq::KAABA_LON);
